@@ -547,13 +547,10 @@ func (d *db) applyPut(batch WriteBatch, notifications *notifications, putReq *pr
 	var err error
 	var newKey string
 	if len(putReq.GetSequenceKeyDelta()) > 0 {
-		prefixKey := putReq.Key
+		// The new key is published to the sequence waiters once the request is committed
+		// (see ProcessWrite): the request can still be refused, and then the key never exists
 		newKey, err = generateUniqueKeyFromSequences(batch, putReq)
 		putReq.Key = newKey
-		if err == nil {
-			// A refused request has generated no key: there is nothing to publish
-			d.sequenceWaiterTracker.SequenceUpdated(prefixKey, newKey)
-		}
 	} else if !internal {
 		se, err = checkExpectedVersionId(batch, putReq.Key, putReq.ExpectedVersionId)
 	}
